@@ -191,6 +191,7 @@ class TreeSim(taps.Sim):
         self.may_be_bankrupt = False
         self.alloc_events = []
         self.last_obs_val = {}
+        self.ill_ok = False
         if "C05" in judge:
             self.on_sec_allocate = self._c05
         self._upd_val = None
@@ -302,6 +303,11 @@ class TreeSim(taps.Sim):
             return
         root = self.root
         v = self._upd_val
+        if v != v:
+            if self.model.open_nan():
+                self.c10("open_nan_missed", "update on %s succeeded although %s is open at a NaN price" % (date, self.model.open_nan()[0],), {})
+            elif self.model.open_nan_coupon():
+                pass
         if root.fixed_income or v != v:
             return
         if v < -self._upd_tol:
@@ -333,6 +339,14 @@ class TreeSim(taps.Sim):
         kw = {k: v for k, v in fr.items() if k != "prices"}
         self.kw = kw
         taps.set_current(self)
+        if self.cfg.get("ill") == "fi_child":
+            self.fire("ill_fi_child")
+            try:
+                root.setup(data, **kw)
+                self.c10("ill_not_raised", "fixed-income sub-strategy under a market-value parent was accepted by setup", {"ill": "fi_child"})
+            except ValueError:
+                self.ill_ok = True
+            raise Stop("ill_fi_child")
         root.setup(data, **kw)
         if self.cfg["capital"]:
             root.adjust(self.cfg["capital"])
@@ -443,7 +457,7 @@ class TreeSim(taps.Sim):
         except Exception as e:  # noqa
             msg = str(e)
             if any(msg.startswith(s) for s in SIZING_STEMS):
-                self.c10("sizing_exception", "%s: %s" % (what, msg[:120]), {"exc": "sizing", "stem": msg[:30]})
+                self.c10("sizing_exception", "%s: %s" % (what, msg[:120]), {"exc": "sizing", "stem": msg[:24]})
                 raise Stop("sizing_exception")
             if msg.startswith("Cannot allocate capital to "):
                 name = msg[len("Cannot allocate capital to "):].split(" because")[0]
@@ -677,7 +691,7 @@ class TreeSim(taps.Sim):
                 self.flush("pre-tick flush")
             # ill-formed next date?  (open position meets NaN / non-positive price) -> stop before it
             nt = m.t + 1
-            for s in m.secs():
+            for s in m.secs() if self.cfg.get("ill") != "nan_open" else ():
                 if not isz(s.pos):
                     p = self.feed.price(nt, s.name)
                     if not (p == p and p > 0):
@@ -922,6 +936,18 @@ class TreeSim(taps.Sim):
             return False
         custom = o.get("custom")
         if custom is not None and not self.feed.has("bidoffer"):
+            if self.cfg.get("ill") == "custom_nobidoffer" and cname in node.children:
+                self.fire("ill_custom_price")
+                c = node.children[cname]
+                pos0, cap0 = c.position, node.capital
+                try:
+                    c.transact(q, price=round(price * custom, 6))
+                    self.c10("ill_not_raised", "custom-price trade without bid/offer data was accepted", {"ill": "custom_nobidoffer"})
+                except ValueError:
+                    if c.position != pos0 or node.capital != cap0:
+                        self.c10("ill_state_changed", "refused custom-price trade changed state", {"ill": "custom_nobidoffer"})
+                    self.ill_ok = True
+                return False
             custom = None
         cp = None if custom is None else round(price * custom, 6)
         if cname not in node.children:
@@ -1190,3 +1216,34 @@ def run_plan(bt, plan, judge):
     finally:
         taps.set_current(None)
     return sim
+
+
+def gen_ill_plan(rng, kind, tier="quick"):
+    """an otherwise healthy plan with one enumerated ill-formed situation injected at a seeded instant"""
+    plan = gen_plan(rng, "accounting", tier, knobs=dict(fi=0.0, faults={}, coupon=0.0))
+    cfg = plan["cfg"]
+    cfg["ill"] = kind
+    tickers = plan["feed"]["tickers"]
+    if kind == "nan_open":
+        # flat tree holding every ticker; one ticker's price goes missing on a later date
+        plan["tree"] = {"k": "S", "name": "root", "cls": "StrategyBase", "fi": False, "how": "list", "children": [{"k": "X", "name": t, "cls": "Security", "mult": 1.0, "decl": "obj"} for t in tickers]}
+        nd = len(plan["feed"]["dates"])
+        d = rng.randint(1, nd - 1)
+        j = rng.randrange(len(tickers))
+        plan["feed"]["prices"][d][j] = None
+        pre = [{"op": "tick"}, {"op": "alloc", "n": 0, "c": j, "mode": "frac", "frac": rng.choice([0.2, 0.5, -0.3]), "direct": False, "upd": True}]
+        plan["ops"] = pre + [o for o in plan["ops"] if o["op"] != "flatten"]
+        plan["ops"] += [{"op": "tick"}] * nd
+    elif kind == "custom_nobidoffer":
+        plan["feed"]["bidoffer"] = None
+        for o in plan["ops"]:
+            if o["op"] == "transact":
+                o["custom"] = 1.01
+                o["direct"] = True
+        plan["ops"].append({"op": "tick"})
+        plan["ops"].append({"op": "alloc", "n": 0, "c": 0, "mode": "frac", "frac": 0.2, "direct": False, "upd": True})
+        plan["ops"].append({"op": "transact", "n": 0, "c": 0, "qfrac": 0.2, "upd": True, "direct": True, "custom": 1.01})
+    elif kind == "fi_child":
+        sub = {"k": "S", "name": "fic", "cls": "FixedIncomeStrategy", "fi": True, "how": "list", "children": [{"k": "X", "name": tickers[0], "cls": "Security", "mult": 1.0, "decl": "obj"}]}
+        plan["tree"] = {"k": "S", "name": "root", "cls": rng.choice(["StrategyBase", "Strategy"]), "fi": False, "how": "list", "children": [sub, {"k": "X", "name": tickers[-1], "cls": "Security", "mult": 1.0, "decl": "obj"}]}
+    return plan
